@@ -503,9 +503,11 @@ def openapi30(spec: Any, disc: Disc) -> bool:
 
 
 def empty_path(spec: Any, disc: Disc) -> bool:
-    """KF-C16-3: OpenAPI documents generated for the endpoint path ''"""
-    return spec['kind'].startswith('openapi') and spec['path'] == '' and ('path-key' in disc.bucket or "does not match any of the regexes: '^\\\\/'" in disc.detail
-                                                                           or 'does not match any of the regexes' in disc.detail)
+    """KF-C16-3: OpenAPI documents generated for the endpoint path '' (path keys without a leading '/')"""
+    if not (spec['kind'].startswith('openapi') and spec['path'] == ''):
+        return False
+    # the explicit clause, or the 3.0 meta-schema's own complaint about the path keys (singular and plural wording)
+    return 'path-key' in disc.bucket or ('match any of the regexes' in disc.detail and "at ['paths']" in disc.detail)
 
 
 def openrpc_docstring(spec: Any, disc: Disc) -> bool:
